@@ -55,7 +55,10 @@ fn pair_ops(out: &mut Out, c: Iv, d: Iv) {
         Some(Ordering::Greater) => "gt",
         None => "none",
     };
-    out.emit(json!({"op":"cmp","c":c.j(),"d":d.j(),"r":o,"eq":sc == sd}));
+    // the comparison operators are separate trait methods: each one is called
+    #[allow(clippy::neg_cmp_op_on_partial_ord)]
+    let ops = json!([sc < sd, sc <= sd, sc > sd, sc >= sd, sc != sd]);
+    out.emit(json!({"op":"cmp","c":c.j(),"d":d.j(),"r":o,"eq":sc == sd,"ops":ops}));
 }
 
 fn unary_ops(out: &mut Out, c: Iv) {
